@@ -123,9 +123,12 @@ impl TryFrom<&FixedShapeTensorField> for Field {
     type Error = Error;
 
     fn try_from(value: &FixedShapeTensorField) -> Result<Self> {
-        let mut n = 1;
+        let mut n: usize = 1;
         for s in &value.shape {
-            n *= *s;
+            let Some(next) = n.checked_mul(*s) else {
+                fail!("The number of elements of FixedShapeTensorField overflows");
+            };
+            n = next;
         }
 
         let mut metadata = HashMap::new();
